@@ -338,6 +338,7 @@ def tap_tree(draw, *, seeds, mp, depth=0, ms=True):
 SHAPES = [
     "pk", "pkh", "wpkh", "combo", "sh(pk)", "sh(pkh)", "sh(wpkh)", "sh(multi)", "wsh(pk)", "wsh(pkh)", "wsh(multi)", "sh(wsh(pk))",
     "sh(wsh(pkh))", "sh(wsh(multi))", "multi", "tr", "tr", "tr-tree", "tr-tree", "tr-tree", "rawtr", "addr", "raw", "wsh(ms)", "sh(wsh(ms))",
+    "tr-multi_a-boundary",
 ]
 RANGED_SHAPES = [s for s in SHAPES if s not in ("addr", "raw")]
 
@@ -381,6 +382,14 @@ def descriptor(draw, *, seeds=(0, 7), mp: int = 0, ranged: bool = False, shapes=
         node = {"f": "tr", "key": draw(tap_key(wild_force=ranged, **kw)), "tree": None}
     elif inner == "tr-tree":
         node = {"f": "tr", "key": draw(tap_key(wild_force=ranged, **kw)), "tree": draw(tap_tree(seeds=seeds, mp=mp, ms=ms))}
+    elif inner == "tr-multi_a-boundary":
+        # BIP387: the threshold is OP_1..OP_16 up to 16 and a pushed number above, so 15, 16 and 17 of 17..20 keys
+        n = draw(st.integers(17, 20))
+        sid = draw(st.integers(*seeds))
+        keys = [{"k": "xonly", "s": sid, "op": [j], "o": 0} for j in range(n)]
+        keys[0] = draw(tap_key(wild_force=ranged, musig=False, **kw))
+        leaf = {"f": draw(st.sampled_from(["multi_a", "sortedmulti_a"])), "k": draw(st.sampled_from([15, 16, 17, n])), "keys": keys}
+        node = {"f": "tr", "key": draw(plain_key(unc=False, xonly=True, wild=False, seeds=seeds)), "tree": leaf}
     elif inner == "addr":
         node = {"f": "addr", "kind": draw(st.sampled_from(["p2pkh", "p2sh", "p2wpkh", "p2wsh", "p2tr"])), "s": draw(st.integers(*seeds)),
                 "net": draw(st.sampled_from(m.NETWORK_NAMES)), "up": draw(st.integers(0, 3)) == 0}
